@@ -327,7 +327,7 @@ func c05Cases(thorough bool) []c05Case {
 					}
 				}
 				// every message × two codes (one shape per protocol unless thorough)
-				if sh != "unary" && sh != "ss" && !thorough {
+				if sh != "unary" && sh != "ss" && sh != "bidi" && !thorough {
 					continue
 				}
 				for _, m := range msgs {
